@@ -134,6 +134,7 @@ def decode (d : Dec) (p : Pkt) : Dec × DecRes (List Bytes) :=
         if d.size = 0 then
           if !d.first then (d, .nonStart) else (d, .err)
         else if p.seq ≠ d.nextSeq then (d.reset, .err)
+        else if body.length = 0 then (d.reset, .err)
         else
           let d := { d with size := d.size + body.length, expected := d.expected - body.length }
           if d.expected < 0 then (d.reset, .err)
